@@ -96,7 +96,9 @@ def ws2dwcv(y, nodata, llas, robust, out, lopt):
                 # robust scale from the residuals of the cells that still carry weight
                 valid = w_temp != 0
                 mad = np.median(np.abs(r_arr[valid] - np.median(r_arr[valid])))
-                if mad > 0:
+                # residuals at rounding-noise level (a numerically exact fit, e.g. a constant or
+                # linear series) say nothing about outliers: keep the weights
+                if mad > 1e-9 * max(1.0, np.max(np.abs(yv))):
                     u_arr = r_arr / (1.4826 * mad * np.sqrt(1 - gamma.sum() / n))
 
                     r_weights = (1 - (u_arr / 4.685) ** 2) ** 2
